@@ -405,6 +405,14 @@ impl ArrayImpl {
             (A::Interval(a), A::Interval(b)) => {
                 A::new_interval(select_op(s.as_ref(), a.as_ref(), b.as_ref()))
             }
+            // the other types (strings, booleans, timestamps, blobs ...): row by row
+            (a, b) if std::mem::discriminant(a) == std::mem::discriminant(b) => {
+                let mut builder = ArrayBuilderImpl::from_type_of_array(a);
+                for (i, cond) in s.iter().enumerate() {
+                    builder.push(&if cond == Some(&true) { a.get(i) } else { b.get(i) });
+                }
+                builder.finish()
+            }
             _ => {
                 return Err(ConvertError::NoBinaryOp(
                     "case".into(),
